@@ -360,3 +360,13 @@ for _p in ("C06", "C08", "C09", "C13"):
 for _p in ("C01", "C02", "C03", "C04", "C05", "C07", "C11", "C16", "C17"):
     PROPS[_p]["tie"] = ["TieIds"]
 PROPS["C14"]["tie"] = ["TieClass"]
+
+# C17: direct tie of startTx (hook VerifStartTx) to the model's tx_pick on tables the histories cannot reach
+PROPS["C17"]["modules"] = PROPS["C17"]["modules"] + ["TxCheck"]
+PROPS["C17"]["runners"] = PROPS["C17"]["runners"] + [{"name": "C17TX"}]
+PROPS["C17"]["rule"] += (" Second runner C17TX (M-pure, hook VerifStartTx): unorderedTxs.startTx on random tables and counters: candidates taken by the same kind (runs with holes), by the other kind, tables of 509-514 entries, the counter at the 13-bit wrap; compared with the model's limit test + tx_pick and judged by tx_ok (identifier free, non-zero, in the space of its kind; ErrMax exactly above 511 pending).")
+
+# C13: gated scenarios with a hostile broker (no panic, no hang), judged by SyncCheck.sync_ok_c13
+PROPS["C13"]["modules"] = PROPS["C13"]["modules"] + ["SyncCheck"]
+PROPS["C13"]["runners"] = PROPS["C13"]["runners"] + [{"name": "SYNC13", "synctest": True}]
+PROPS["C13"]["rule"] += (" Second runner SYNC13 (gated, real time): the broker acknowledges the identifier next in line (PUBACK resp. PUBREC) while the PUBLISH carrying it is still being written, then the write fails: no call may panic or hang (finding F27).")
